@@ -1,8 +1,7 @@
 (** Model of writing to a variable-length bucket (instance timezone UTC):
 
       executor/writer.go:66-139   Writer.WriteRecords   write_records  (grouping of a request's rows into
-                                                         write commands by (index, year) — with [prevYear]
-                                                         NEVER updated after the first row: finding F3)
+                                                         write commands by (index, year) of consecutive rows)
       executor/writer.go:44-63    formatRecord / appendIntervalTicks   rec_of   (payload ++ ticks)
       utils/io/timeindex.go:69    GetIntervalTicks32Bit  row_ticks      (offset from IndexToTimeDepr's base
                                                          time, through the encoder [encf])
@@ -73,15 +72,18 @@ Definition row_ticks (r : wrow) : Z :=
 
 Definition rec_of (r : wrow) : rec := (w_pay r, row_ticks r).
 
-(** WriteRecords: [y0] = prevYear (the FIRST row's year, never updated), [pi] = prevIndex, [cc] = the
-    command being filled *)
-Fixpoint write_records_loop (y0 pi : Z) (cc : vcmd) (rows : list wrow) : list vcmd :=
+(** WriteRecords: [py] = prevYear, [pi] = prevIndex (both of the row that opened the command being
+    filled), [cc] = that command.  A row is merged into [cc] iff its index AND its year equal the previous
+    ones; otherwise [cc] is queued and the row opens a new command.
+    (Before the fix of finding F3, /repo 49eddda, prevYear was set at the first row only, so a row could
+    be merged into another year's command.) *)
+Fixpoint write_records_loop (py pi : Z) (cc : vcmd) (rows : list wrow) : list vcmd :=
   match rows with
   | [] => [cc]
   | r :: rest =>
-      if (w_index r =? pi) && (w_year r =? y0)
-      then write_records_loop y0 pi (mkCmd (c_year cc) (c_index cc) (c_recs cc ++ [rec_of r])) rest
-      else cc :: write_records_loop y0 (w_index r) (mkCmd (w_year r) (w_index r) [rec_of r]) rest
+      if (w_index r =? pi) && (w_year r =? py)
+      then write_records_loop py pi (mkCmd (c_year cc) (c_index cc) (c_recs cc ++ [rec_of r])) rest
+      else cc :: write_records_loop (w_year r) (w_index r) (mkCmd (w_year r) (w_index r) [rec_of r]) rest
   end.
 
 Definition write_records (rows : list wrow) : list vcmd :=
@@ -148,17 +150,5 @@ Definition quantise (r : wrow) : vrow := dec_rec (w_key r) (rec_of r).
 
 (** F2: a row whose index is 0 (1D bucket, January 1st) *)
 Definition f2_row (r : wrow) : bool := w_index r =? 0.
-
-(** F3: the prevYear test misfires: a row is merged into a command that belongs to another file year *)
-Fixpoint f3_loop (y0 pi ccy : Z) (rows : list wrow) : bool :=
-  match rows with
-  | [] => false
-  | r :: rest =>
-      if (w_index r =? pi) && (w_year r =? y0)
-      then negb (ccy =? w_year r) || f3_loop y0 pi ccy rest
-      else f3_loop y0 (w_index r) (w_year r) rest
-  end.
-Definition f3_misfire (rows : list wrow) : bool :=
-  match rows with [] => false | r :: rest => f3_loop (w_year r) (w_index r) (w_year r) rest end.
 
 End WithTicks.
